@@ -36,20 +36,31 @@ cvars == <<kind, len, txt>>
 Prefix == "erd"
 MaxBech32Chars == 90
 
+\* human-readable parts: the expected one, an unrelated one, and the near misses -- proper extensions of the expected
+\* prefix ("erdt", "erdtest", "erd1": the text then reads erd11..., the LAST 1 is the separator), proper prefixes of it
+\* ("er", "e"), same length with one character changed ("erx"), none at all ("empty": the text starts with the separator)
+Hrps == {"erd", "other", "erdt", "erdtest", "erd1", "er", "e", "erx", "empty"}
+NearMissHrps == Hrps \ {"erd", "other"}
+HrpLen(h) == CASE h = "erd" -> 3 [] h = "other" -> 5 [] h = "erdt" -> 4 [] h = "erdtest" -> 7 [] h = "erd1" -> 4
+               [] h = "er" -> 2 [] h = "e" -> 1 [] h = "erx" -> 3 [] h = "empty" -> 0
+
 \* bech32 text classes: one record field per way of being wrong (canonical value first)
-Bech32Texts == [hrp : {"erd", "other"}, d : Deltas, cs : {"ok", "bad"}, case : {"lower", "upper", "mixed"},
+Bech32Texts == [hrp : Hrps, d : Deltas, cs : {"ok", "bad"}, case : {"lower", "upper", "mixed"},
                 pad : {"zero", "nonzero"}, chars : {"ok", "bad"}, sep : {"ok", "missing"}]
-\* hex text classes: odd = one extra digit
-HexTexts == [d : Deltas, odd : BOOLEAN, case : {"lower", "upper", "mixed"}, chars : {"ok", "bad"}]
+\* hex text classes: odd = one extra digit, pre = "0x" written in front of the digits
+HexTexts == [d : Deltas, odd : BOOLEAN, case : {"lower", "upper", "mixed"}, chars : {"ok", "bad"}, pre : {"none", "0x"}]
 
 Groups(n) == (8 * n + 4) \div 5                       \* 5-bit groups of n bytes (padded)
 PadBits(n) == 5 * Groups(n) - 8 * n                   \* 0..4 padding bits in the last group
-Bech32Chars(t, n) == (IF t.hrp = "erd" THEN 3 ELSE 5) + (IF t.sep = "ok" THEN 1 ELSE 0) + Groups(n) + 6
+Bech32Chars(t, n) == HrpLen(t.hrp) + (IF t.sep = "ok" THEN 1 ELSE 0) + Groups(n) + 6
 
 \* the texts that can be built: payload length >= 0; non-zero padding needs padding bits; mixed case needs two letters
 WellFormed(k, l, t) ==
     /\ l + t.d >= 0
     /\ k = "bech32" => (t.pad = "nonzero" => PadBits(l + t.d) > 0)
+    \* the near-miss prefixes are combined with every payload length and letter case, but are otherwise well formed
+    \* (valid checksum for THAT prefix, zero padding, charset, separator): the prefix is then the only thing wrong
+    /\ k = "bech32" => (t.hrp \in NearMissHrps => (t.cs = "ok" /\ t.pad = "zero" /\ t.chars = "ok" /\ t.sep = "ok"))
     /\ k = "hex" => ((t.case # "lower" \/ t.chars = "bad") => (l + t.d) + (IF t.odd THEN 1 ELSE 0) > 0)
 
 \* constructors: NewBech32PubkeyConverter / NewHexPubkeyConverter
@@ -62,8 +73,9 @@ Constructible(k, l) ==
 Bech32AsCoded(l, t) ==
     LET n == l + t.d IN
     IF Bech32Chars(t, n) > MaxBech32Chars THEN "reject:too-long"
+    ELSE IF Bech32Chars(t, n) < 8 THEN "reject:too-short"
     ELSE IF t.case = "mixed" THEN "reject:mixed-case"
-    ELSE IF t.sep = "missing" THEN "reject:separator"
+    ELSE IF t.sep = "missing" \/ t.hrp = "empty" THEN "reject:separator"     \* no 1, or nothing in front of it
     ELSE IF t.chars = "bad" THEN "reject:charset"
     ELSE IF t.cs = "bad" THEN "reject:checksum"
     ELSE IF t.hrp # Prefix THEN "reject:prefix"
@@ -73,7 +85,7 @@ Bech32AsCoded(l, t) ==
 
 \* hexPubkeyConverter.Decode: hex.DecodeString (invalid byte, odd length), configured length
 HexAsCoded(l, t) ==
-    IF t.chars = "bad" THEN "reject:charset"
+    IF t.chars = "bad" \/ t.pre = "0x" THEN "reject:charset"                \* x is not a hex digit
     ELSE IF t.odd THEN "reject:odd"
     ELSE IF t.d # 0 THEN "reject:length"
     ELSE "accept"
@@ -83,23 +95,30 @@ AsCoded(k, l, t) == IF k = "bech32" THEN Bech32AsCoded(l, t) ELSE HexAsCoded(l, 
 Canonical(k, t) ==
     IF k = "bech32"
     THEN t = [hrp |-> "erd", d |-> 0, cs |-> "ok", case |-> "lower", pad |-> "zero", chars |-> "ok", sep |-> "ok"]
-    ELSE t = [d |-> 0, odd |-> FALSE, case |-> "lower", chars |-> "ok"]
+    ELSE t = [d |-> 0, odd |-> FALSE, case |-> "lower", chars |-> "ok", pre |-> "none"]
 
 \* what C48 demands
 Required(k, t) ==
     IF Canonical(k, t) THEN "accept"                                       \* Decode(Encode(b)) = b
     ELSE IF k = "bech32" /\ (t.hrp # Prefix \/ t.cs = "bad" \/ t.d # 0) THEN "reject"
-    ELSE IF k = "hex" /\ (t.d # 0 \/ t.odd) THEN "reject"
+    ELSE IF k = "hex" /\ t.pre = "none" /\ (t.d # 0 \/ t.odd) THEN "reject"   \* C48 names no prefix for hex: 0x... is unspecified
     ELSE "unspecified"
 
 Verdict(c) == IF c = "accept" THEN "accept" ELSE "reject"
 
+PrefixClass(h) == CASE h = "other" -> "unrelated"
+                     [] h \in {"erdt", "erdtest", "erd1"} -> "extends-expected"
+                     [] h \in {"er", "e"} -> "prefix-of-expected"
+                     [] h = "erx" -> "one-character-differs"
+                     [] h = "empty" -> "empty"
+                     [] OTHER -> "none"
 \* which clause of C48 speaks about the class (signature of a violation)
 Why(k, l, t) ==
     IF Canonical(k, t)
     THEN IF k = "bech32" /\ Bech32Chars(t, l) > MaxBech32Chars THEN "round-trip/text-longer-than-90-characters" ELSE "round-trip"
-    ELSE IF k = "bech32" /\ t.hrp # Prefix THEN "different-prefix"
+    ELSE IF k = "bech32" /\ t.hrp # Prefix THEN "different-prefix/" \o PrefixClass(t.hrp)
     ELSE IF k = "bech32" /\ t.cs = "bad" THEN "bad-checksum"
+    ELSE IF k = "hex" /\ t.pre # "none" THEN "unspecified"
     ELSE IF t.d # 0 THEN "different-decoded-length"
     ELSE IF k = "hex" /\ t.odd THEN "odd-number-of-digits"
     ELSE "unspecified"
